@@ -105,7 +105,7 @@ Lemma parse_signed_bound : forall bits s z, parse_signed bits s = Some z ->
   (- 2 ^ (bits - 1) <= z < 2 ^ (bits - 1))%Z.
 Proof.
   unfold parse_signed. intros bits s z H.
-  destruct (match s with 43 :: r => (false, r) | 45 :: r => (true, r) | _ => (false, s) end) as [neg d].
+  match type of H with (let '(_, _) := ?x in _) = _ => destruct x as [neg d] end.
   des H. injection H as <-.
   match goal with E : (_ && _)%bool = true |- _ => apply andb_true_iff in E; destruct E as [E1 E2] end.
   apply Z.leb_le in E1. apply Z.ltb_lt in E2. lia.
